@@ -8,7 +8,8 @@ cd /verif
 one() {
   d=$1; id=$(basename $d); pid=${id%%_*}
   w=/tmp/sweep_$id; rm -rf $w; mkdir -p $w; cp -r /repo/sigpyproc /repo/sigpyproc.egg-info /repo/tests $w/ 2>/dev/null
-  if ! (cd $w && patch -p1 -s --no-backup-if-mismatch < /verif/$d/patch.diff > $w/patch.log 2>&1); then
+  pf=/verif/$d/patch.diff; [ -f /verif/$d/patch_current.diff ] && pf=/verif/$d/patch_current.diff   # same edit, refreshed context after a later fix: commit
+  if ! (cd $w && patch -p1 -s --no-backup-if-mismatch < $pf > $w/patch.log 2>&1); then
     echo "$id does-not-apply-to-current-tree"; rm -rf $w; return
   fi
   out=/tmp/sweepout_$id; mkdir -p $out
@@ -18,5 +19,9 @@ one() {
   rm -rf $w $out /tmp/nbc_sweep_$id
 }
 export -f one
-ls -d seeded/*_m* | grep "$pat" | xargs -P $jobs -I{} bash -c 'one {}' | sort > seeded/SWEEP.txt
+ls -d seeded/*_m* | grep "$pat" | xargs -P $jobs -I{} bash -c 'one {}' | sort > /tmp/sweep_new.txt
+# keep earlier results of changes that were not re-run now
+touch seeded/SWEEP.txt
+awk 'NR==FNR {seen[$1]=1; print; next} !($1 in seen)' /tmp/sweep_new.txt seeded/SWEEP.txt | sort > /tmp/sweep_merged.txt
+mv /tmp/sweep_merged.txt seeded/SWEEP.txt; rm -f /tmp/sweep_new.txt
 cat seeded/SWEEP.txt
